@@ -21,7 +21,7 @@ RULE = ("a case is (composite type, header flag, byte string): random bytes, eve
         "change a successful result, junk after a valid representation is ignored; non-trivial = the byte string is non-empty and the type "
         "has an array, union or delimited part; distinct = by hash of the canonical case")
 THEOREMS_NOTE = ("C07_reader_zero_extends (both read paths), C07_truncation / C07_truncation_ser, C07_zero_ext / C07_zero_ext_conv, C07_confinement, "
-                 "C07_rejects_* / C07_accepts_* (never clamped), C07_valid_fixpoint_partial (no float fields): the model's result is the only admissible one")
+                 "C07_rejects_* / C07_accepts_* (never clamped), C07_valid_fixpoint (all types incl. float fields, extents < 2^35 bits): the model's result is the only admissible one")
 TRUSTED = S.TRUSTED
 ASSUMPTIONS = ["array capacities of random cases are <= 24 so that a hostile length prefix cannot make either side loop for long"]
 EXPLANATION = ("theorems quantify over all types and all byte strings; the correspondence compares the implementation's result "
